@@ -4,7 +4,7 @@ import ast
 from ..core import sym
 from ..core.expand import u, call_name, get_arg, bind_args, Expander, is_marker, phi_alternatives
 from ..core.loader import Inconclusive, const_value, parents
-from .common import (returns, all_nodes, callee, strip_shape, calls_in, guards_of, stmt_of, kw, find_assignments, compare_nf,
+from .common import (alternatives, accumulation_alternatives, dispatch_targets, returns, all_nodes, callee, strip_shape, calls_in, guards_of, stmt_of, kw, find_assignments, compare_nf,
                      dict_literal_items, in_loop)
 
 EXPLANATION = (
@@ -217,12 +217,18 @@ def rule_schema(ck):
         else:
             o.ok('columns [:, :4], first-appearance order')
     # origin vertex in both swap variants
-    comps = [n for n in all_nodes(f) if isinstance(n, ast.ListComp) and isinstance(n.elt, ast.Tuple) and len(n.elt.elts) == 4]
-    for c in comps:
-        oo = ck.ob('C11-D2.vertex', f, c.elt.elts[0], c)
-        swapped = any(isinstance(t, ast.Name) and t.id == 'swap_latlon' and pol for t, pol in guards_of(c, f.node))
+    comps = [(n, n, n.generators[0].target) for n in all_nodes(f) if isinstance(n, ast.ListComp) and isinstance(n.elt, ast.Tuple) and len(n.elt.elts) == 4]
+    # the same lists written as append loops
+    for nm in sorted(f.locals):
+        for comp, lp in (accumulation_alternatives(f, nm) or []):
+            if isinstance(comp.elt, ast.Tuple) and len(comp.elt.elts) == 4:
+                comps.append((comp, lp, lp.target))
+    for c, anchor, tgt in comps:
+        oo = ck.ob('C11-D2.vertex', f, c.elt.elts[0], anchor)
+        swapped = any(isinstance(t, ast.Name) and t.id == 'swap_latlon' and pol for t, pol in guards_of(anchor, f.node))
         v0 = c.elt.elts[0]
-        want = ('i[2]', 'i[0]') if swapped else ('i[0]', 'i[2]')
+        iv = tgt.id if isinstance(tgt, ast.Name) else 'i'
+        want = ('%s[2]' % iv, '%s[0]' % iv) if swapped else ('%s[0]' % iv, '%s[2]' % iv)
         got = tuple(u(x) for x in v0.elts) if isinstance(v0, ast.Tuple) else None
         (oo.ok('origin = (lon0, lat0)') if got == want else oo.fail('the first vertex is %s; the cell origin must be (%s, %s) for swap_latlon=%s' % (got, want[0], want[1], swapped)))
     # flags
@@ -294,6 +300,11 @@ def rule_lookup(ck):
         o = ck.ob('C11-D3.lookup', f, s, s)
         i0, i1 = ex.expand(s.slice.elts[0]), ex.expand(s.slice.elts[1])
         base = u(s.value)
+        if isinstance(s.value, ast.Name) and s.value.id not in f.params:
+            # a temporary selecting the source array: every alternative must be the scaled view or the caller's array
+            alts = [u(a_) for a_ in alternatives(ex.expand(s.value))]
+            if alts and all(a_ in ('self.data', 'data') for a_ in alts) and 'self.data' in alts:
+                base = 'self.data'
         probs = []
         if u(i0) != 'self.get_index_of(%s, %s)' % (lons, lats):
             probs.append('the first index is `%s`, expected self.get_index_of(%s, %s)' % (u(i0)[:60], lons, lats))
@@ -361,10 +372,7 @@ def rule_loaders(ck):
     f = P.func('csep.load_gridded_forecast')
     tabs = [n for n in all_nodes(f) if isinstance(n, ast.Assign) and isinstance(n.value, ast.Dict)]
     o = ck.ob('C11-D6.dispatch', f, tabs[0].value if tabs else 'loader mapping', tabs[0] if tabs else f.node)
-    good = False
-    if tabs:
-        items = dict((k, P.canon(f, v) if not isinstance(v, ast.Constant) else None) for k, v in dict_literal_items(tabs[0].value))
-        good = items.get('dat') == G + 'GriddedForecast.load_ascii'
+    good = dispatch_targets(P, f, 'dat') == {G + 'GriddedForecast.load_ascii'}
     (o.ok("'dat' -> GriddedForecast.load_ascii") if good else o.fail("the 'dat' extension does not map to GriddedForecast.load_ascii"))
     ck.clause('D5')
     for q in ('csep.utils.readers.quadtree_ascii_loader', 'csep.utils.readers.quadtree_csv_loader'):
